@@ -1,6 +1,7 @@
 package main
 
 import (
+	"reflect"
 	"encoding/json"
 	"fmt"
 	"strings"
@@ -51,9 +52,24 @@ func sameValue(a, b any) bool {
 		if da.Addr == 0 && db.Addr == 0 { // hollow values (zero alias, nil pointer): same type is all there is
 			return da.Class == db.Class && fmt.Sprintf("%T", a) == fmt.Sprintf("%T", b)
 		}
-		return da.Class == db.Class && da.Addr == db.Addr && da.Addr != 0
+		// the same instance, handed back in the very form it is stored in (an alias stays an alias, a
+		// pointer the same pointer)
+		// (a Condition alias at the end of a path may come back as its native conversion: see Assumptions)
+		if da.Class == "condition" {
+			return da.Class == db.Class && da.Addr == db.Addr && da.Addr != 0
+		}
+		return da.Class == db.Class && da.Addr == db.Addr && da.Addr != 0 && fmt.Sprintf("%T", a) == fmt.Sprintf("%T", b) && samePointer(a, b)
 	}
 	return fmt.Sprintf("%T", a) == fmt.Sprintf("%T", b) && fmt.Sprint(a) == fmt.Sprint(b)
+}
+
+// samePointer: two pointer values are the same pointer; non-pointers pass.
+func samePointer(a, b any) bool {
+	ra, rb := reflect.ValueOf(a), reflect.ValueOf(b)
+	if ra.Kind() == reflect.Ptr && rb.Kind() == reflect.Ptr {
+		return ra.Pointer() == rb.Pointer()
+	}
+	return true
 }
 
 type c07Case struct {
@@ -282,6 +298,46 @@ func c07Chains(c *Ctx) (trees []node, paths [][][]int) {
 	return
 }
 
+// c07Wide: the long regime across: stacks of 8 and more elements at the root and one level down, nested
+// stacks at the first, the eighth, a middle and the last position; paths: every single index from
+// -width-2 to width+2, and every such index below each of the nested positions (and below -1 and beyond
+// the end, for the index options).
+func c07Wide(c *Ctx) (trees []node, paths [][][]int) {
+	widths := []int{8, 9, 17}
+	if !c.Quick() {
+		widths = []int{7, 8, 9, 10, 12, 16, 17, 33, 65}
+	}
+	forms := []string{"S", "A", "CS", "PA"}
+	for wi, w := range widths {
+		inner := make([]node, w)
+		for i := range inner {
+			inner[i] = node{T: "leaf", V: fmt.Sprintf("in%d", i)}
+		}
+		inner[w-1] = node{T: "S", K: "OR", Kids: []node{{T: "leaf"}, {T: "leaf"}}}
+		kids := make([]node, w)
+		for i := range kids {
+			kids[i] = node{T: "leaf", V: fmt.Sprintf("k%d", i)}
+		}
+		kids[1] = node{T: "nil"}
+		for pi, pos := range []int{0, 7, w / 2, w - 1} {
+			if pos < w {
+				kids[pos] = node{T: forms[(pi+wi)%len(forms)], K: kindNames[(pi+wi)%5], Kids: inner}
+			}
+		}
+		root := node{T: "S", K: kindNames[wi%5], Kids: kids}
+		var ps [][]int
+		for i := -w - 2; i <= w+2; i++ {
+			ps = append(ps, []int{i})
+			for _, first := range []int{0, 7, w / 2, w - 1, -1, w + 5, 2} {
+				ps = append(ps, []int{first, i})
+			}
+			ps = append(ps, []int{w - 1, w - 1, i}, []int{7, -1, i})
+		}
+		trees, paths = append(trees, root), append(paths, ps)
+	}
+	return
+}
+
 func c07Paths(maxLen, lo, hi int) [][]int {
 	var out [][]int
 	var rec func(cur []int)
@@ -373,6 +429,21 @@ func init() {
 			}
 		}
 		c.Bound["chain_depths"] = len(chains)
+		wide, widePaths := c07Wide(c)
+		for i := range wide {
+			for _, on := range optNames {
+				s := wide[i].buildStack("r", c07Opts(on))
+				before := dumpKey(s)
+				for _, p := range widePaths[i] {
+					c07Check(c, s, c07Case{wide[i], on, p}, i, true)
+				}
+				if after := dumpKey(s); after != before {
+					c.Violation("traverse-mutates", fmt.Sprintf("Traverse changed the tree %s", wide[i]), c07Case{wide[i], on, nil}, 0)
+				}
+				c.States.Add(1)
+			}
+		}
+		c.Bound["wide_trees"] = len(wide)
 		c.Bound["paths_on_self_containing_structures"] = c07Cyclic(c)
 		c.Traces.Store(c.Transitions.Load())
 		c.Evals.Store(c.Transitions.Load())
